@@ -111,9 +111,9 @@ def infer_spec(ctx, p, crate, variant, L):
     rng = L.rng
     src = rng[2][0]
     prefix = None
-    if src[0] == "const":
+    if src[0] in ("const", "submap"):
         item = src
-    elif src[0] == "call" and src[1].endswith("::prefix") and src[2] and src[2][0][0] == "const":
+    elif src[0] == "call" and src[1].endswith("::prefix") and src[2] and src[2][0][0] in ("const", "submap"):
         item = src[2][0]
         k = src[2][1]
         fs = [x[3] for x in walk(k) if x[0] == "vfield" and x[1] == msgv and x[2] == variant]
